@@ -545,7 +545,7 @@ func TestPeersAgree(t *testing.T) {
 // (b) single peer: outcome, handshake and bytes written independent of chunking and buffer sizes
 func mutateRequest(t *rapid.T, req []byte) []byte {
 	s := string(req)
-	switch rapid.IntRange(0, 9).Draw(t, "mutation") {
+	switch rapid.IntRange(0, 13).Draw(t, "mutation") {
 	case 0:
 		s = strings.Replace(s, "GET ", "POST ", 1)
 	case 1:
@@ -563,6 +563,12 @@ func mutateRequest(t *rapid.T, req []byte) []byte {
 		s = strings.Replace(s, "\r\n", "\r\nHost: other.example\r\n", 1)
 	case 7: // a header line without a colon: ws.Upgrader answers 400, net/http's parser gives up
 		s = strings.Replace(s, "\r\n", "\r\nthis line has no colon\r\n", 1)
+	case 8: // header lines net/http's parser refuses on sight, while ws.Upgrader may take them for headers it does not know
+		s = strings.Replace(s, "\r\n", "\r\n: empty-name\r\n", 1)
+	case 9:
+		s = strings.Replace(s, "\r\n", "\r\nX\x01Ctl: v\r\n", 1)
+	case 10:
+		s = strings.Replace(s, "\r\n", "\r\nX Sp: v\r\n", 1)
 	}
 	return []byte(s)
 }
@@ -793,8 +799,21 @@ func TestDebugUpgraderFaithful(t *testing.T) {
 		if !bytes.Equal(plainRec.Bytes(), dbgRec.Bytes()) {
 			t.Fatalf("DebugUpgrader changes the bytes written:\n%q\nvs\n%q", dbgRec.Bytes(), plainRec.Bytes())
 		}
+		// What OnRequest is given for a request that net/http cannot parse AND the upgrader refuses is left open.
+		// For one the upgrader accepts it is the whole request head at least (the wrapper cannot know where a
+		// body ends that net/http did not frame for it) and nothing that was not on the wire.
 		if cbReq && netHTTPParses(req) && !bytes.Equal(gotReq, req) {
 			t.Fatalf("OnRequest reported\n%q\nthe request on the wire was\n%q", gotReq, req)
+		}
+		if cbReq && !netHTTPParses(req) && plainErr == nil {
+			hx.Class("debug-upgrader/accepted-request-net/http-refuses")
+			h := bytes.Index(req, []byte("\n\n"))
+			if i := bytes.Index(req, []byte("\n\r\n")); i >= 0 && (h < 0 || i+1 < h) {
+				h = i + 1
+			}
+			if h < 0 || !bytes.HasPrefix(req, gotReq) || len(gotReq) < h+2 {
+				t.Fatalf("OnRequest reported\n%q\nthe request on the wire (accepted by the upgrader, refused by net/http's parser) was\n%q\nchunks %v", gotReq, req, chunks)
+			}
 		}
 		if cbResp && !bytes.Equal(gotResp, plainRec.Bytes()) {
 			t.Fatalf("OnResponse reported\n%q\nthe response on the wire was\n%q", gotResp, plainRec.Bytes())
